@@ -3,7 +3,8 @@ package nsqd
 // C04 (numeric half): how the real code reads delays/timeouts written as text.
 //
 //   b10 <hex>                      protocol.ByteToBase10 (direct)
-//   ms2dur <ms>                    msToDuration (direct)
+//   (ms2dur <ms>                   msToDuration, direct: num_ms_test.go — separate so that this file
+//                                  keeps compiling on trees without that helper)
 //   req <maxReq> <hex>             the real protocolV2.REQ handler on a real channel; the duration it
 //                                  requeued with is resolved from the deferred deadline (white-box)
 //   reqtcp <maxReq> <hex> <lo> <hi> REQ over a real TCP connection; [lo,hi] brackets the delay observed
@@ -16,7 +17,6 @@ import (
 	"encoding/hex"
 	"fmt"
 	"io"
-	"math"
 	"net"
 	"net/http"
 	"net/url"
@@ -228,9 +228,6 @@ func (e *vfE1NumEnv) exec(line string) (op string, impl string, redo bool) {
 		}
 		e.hist["b10:ok"]++
 		return op, fmt.Sprintf("ok %d", v), false
-	case "ms2dur":
-		ms, _ := strconv.ParseUint(w[1], 10, 64)
-		return op, fmt.Sprint(int64(msToDuration(ms))), false
 	case "setmsgtimeout":
 		maxMT, _ := strconv.ParseInt(w[1], 10, 64)
 		v, _ := strconv.ParseInt(w[3], 10, 64)
@@ -458,20 +455,6 @@ func TestVerifNumCorr(t *testing.T) {
 	for i := 0; i < n; i++ {
 		s := vfE1Spelling(r, []uint64{3600000, 5000, 0, 1}[r.Intn(4)], false)
 		run("b10 " + vfHex([]byte(s)))
-	}
-	for i := 0; i < n/4; i++ {
-		var ms uint64
-		switch r.Intn(5) {
-		case 0:
-			ms = 9223372036854 - 3 + uint64(r.Intn(7))
-		case 1:
-			ms = math.MaxUint64 - uint64(r.Intn(3))
-		case 2:
-			ms = uint64(r.Intn(10000))
-		default:
-			ms = r.Next() >> uint(r.Intn(64))
-		}
-		run(fmt.Sprintf("ms2dur %d", ms))
 	}
 	for i := 0; i < n/4; i++ {
 		maxMT := []time.Duration{15 * time.Minute, 90 * time.Second, 1500 * time.Millisecond, 2000500 * time.Microsecond, time.Second, 999 * time.Millisecond}[r.Intn(6)]
